@@ -128,6 +128,148 @@ def runExternal (toks : List String) : String :=
       (tag ++ "{" ++ obs ++ "} ") :: go c' ids ts
   String.join (go [] [] toks)
 
+/-! ### Q : value-algebra scripts -/
+
+inductive PathElem | idx (i : Nat) | md
+
+def parsePath (p : String) : Nat × List PathElem :=
+  match p.splitOn "." with
+  | [] => (0, [])
+  | k :: rest => (k.toNat!, rest.map fun t => if t == "m" then PathElem.md else PathElem.idx t.toNat!)
+
+def childAt (v : Val) (i : Nat) : Option Val :=
+  match v with
+  | .list _ _ xs | .vec _ _ xs | .set _ _ xs => xs[i]?
+  | .map _ _ ks vs => if i % 2 == 0 then ks[i / 2]? else vs[i / 2]?
+  | .tagged _ _ _ x => if i == 0 then some x else none
+  | _ => none
+
+def getAt : Val → List PathElem → Option Val
+  | v, [] => some v
+  | v, .idx i :: r => (childAt v i).bind (getAt · r)
+  | v, .md :: r => v.md.bind (getAt · r)
+
+def setChild (v : Val) (i : Nat) (c : Val) : Val :=
+  match v with
+  | .list h m xs => .list h m (xs.set i c)
+  | .vec h m xs => .vec h m (xs.set i c)
+  | .set h m xs => .set h m (xs.set i c)
+  | .map h m ks vs => if i % 2 == 0 then .map h m (ks.set (i / 2) c) vs else .map h m ks (vs.set (i / 2) c)
+  | .tagged h m t _ => .tagged h m t c
+  | v => v
+
+partial def modifyAt (v : Val) (path : List PathElem) (f : Val → Val) : Val :=
+  match path with
+  | [] => f v
+  | .idx i :: r =>
+    match childAt v i with
+    | some c => setChild v i (modifyAt c r f)
+    | none => v
+  | .md :: r =>
+    match v.md with
+    | some m => v.setMd (some (modifyAt m r f))
+    | none => v
+
+def children (v : Val) : List Val :=
+  match v with
+  | .list _ _ xs | .vec _ _ xs => xs
+  | _ => []
+
+def setChildren (v : Val) (xs : List Val) : Val :=
+  match v with
+  | .list h m _ => .list h m xs
+  | .vec h m _ => .vec h m xs
+  | v => v
+
+def dumpOpt (cfg : Cfg) (v : Option Val) : String :=
+  match v with
+  | some x => dumpVal cfg false 0 x
+  | none => "none"
+
+def runScript (cfg : Cfg) (toks : List String) : String :=
+  let rec go (regs : Array (Option Val)) : List String → List String
+    | [] => []
+    | t :: ts =>
+      if t.startsWith "r" && (t.drop 1).front.isDigit then
+        match t.splitOn "=" with
+        | [k, hex] =>
+          let idx := (k.drop 1).toNat!
+          match (read cfg {} (unhex hex)).out with
+          | .value v => "ok" :: go (regs.setIfInBounds idx (some v)) ts
+          | .error code _ _ => s!"err:{code.name}" :: go (regs.setIfInBounds idx none) ts
+          | _ => "err:?" :: go (regs.setIfInBounds idx none) ts
+        | _ => "bad-op" :: go regs ts
+      else
+        let parts := t.splitOn ":"
+        let look (p : String) : Option Val :=
+          let (k, path) := parsePath p
+          (regs.getD k none).bind (getAt · path)
+        match parts with
+        | ["h", p] =>
+          let (k, path) := parsePath p
+          match look p with
+          | none => hex64 fnvOffset :: go regs ts
+          | some v =>
+            let (h, _) := hashOp cfg v
+            let regs' := match regs.getD k none with
+              | some root => regs.setIfInBounds k (some (modifyAt root path fun x => (hashOp cfg x).2))
+              | none => regs
+            hex64 h :: go regs' ts
+        | ["e", p, q] =>
+          (match look p, look q with
+           | some a, some b => b01 (equal cfg a b)
+           | none, none => "1"
+           | _, _ => "0") :: go regs ts
+        | ["lk", p, q] =>
+          (match look p, look q with
+           | some m, some key => dumpOpt cfg (mapLookup cfg m key)
+           | _, _ => "none") :: go regs ts
+        | ["ck", p, q] =>
+          (match look p, look q with
+           | some m, some key => b01 (mapLookup cfg m key).isSome
+           | _, _ => "0") :: go regs ts
+        | ["sc", p, q] =>
+          (match look p, look q with
+           | some m, some x => b01 (setContains cfg m x)
+           | _, _ => "0") :: go regs ts
+        | ["sg", p] =>
+          (match look p with
+           | some (.str _ d e) =>
+             (match stringGet cfg d e with
+              | some b => s!"{b.length}:{hexOf b}"
+              | none => "ERR")
+           | _ => "ERR") :: go regs ts
+        | ["se", p, hex] =>
+          (match look p with
+           | some (.str _ d e) => b01 (stringEquals cfg d e (unhex hex))
+           | _ => "0") :: go regs ts
+        | ["gk", p, hex] =>
+          (match look p with
+           | some m@(.map ..) => dumpOpt cfg (mapLookup cfg m (tempKeyword none ((unhex hex).takeWhile (· != 0))))
+           | _ => "none") :: go regs ts
+        | ["gs", p, hex] =>
+          (match look p with
+           | some m@(.map ..) => dumpOpt cfg (mapLookup cfg m (tempString ((unhex hex).takeWhile (· != 0))))
+           | _ => "none") :: go regs ts
+        | ["gn", p, hns, hname] =>
+          (match look p with
+           | some m@(.map ..) =>
+             dumpOpt cfg (mapLookup cfg m (tempKeyword (some ((unhex hns).takeWhile (· != 0))) ((unhex hname).takeWhile (· != 0))))
+           | _ => "none") :: go regs ts
+        | ["d", p] =>
+          let (k, path) := parsePath p
+          (match look p with
+           | some v =>
+             let (dup, ys) := hasDuplicates cfg (children v)
+             let regs' := match regs.getD k none with
+               | some root => regs.setIfInBounds k (some (modifyAt root path fun x => setChildren x ys))
+               | none => regs
+             b01 dup :: go regs' ts
+           | none => "0" :: go regs ts)
+        | ["t", p] => dumpOpt cfg (look p) :: go regs ts
+        | _ => "bad-op" :: go regs ts
+  "\t".intercalate (go (Array.replicate 16 none) toks)
+
 def step (cfg : Cfg) (line : String) : Cfg × String :=
   match line.trimAscii.toString.splitOn " " with
   | ["C", n] => (cfgOfBits n.toNat!, s!"cfg {n}")
@@ -138,6 +280,7 @@ def step (cfg : Cfg) (line : String) : Cfg × String :=
   | ["S", name, start, hex] => (cfg, runScan name start.toNat! (unhex hex))
   | ["L", hex] => (cfg, runLines (unhex hex))
   | "N" :: rest => (cfg, runNum cfg rest)
+  | "Q" :: rest => (cfg, runScript cfg rest)
   | "A" :: rest => (cfg, runArena rest)
   | "G" :: rest => (cfg, runRegistry rest)
   | "X" :: rest => (cfg, runExternal rest)
